@@ -78,6 +78,9 @@ F1c == {Prog("F1c", <<S(Asg("=", d, Un(op, l)))>>) : d \in Dst8, op \in {"-", "~
 F1d == {Prog("F1d", <<S(Asg(op, d, r))>>) : d \in Dst, op \in RingOps, r \in Leaf}
 \* F1e: ++/-- as statements and as values
 F1e == {Prog("F1e", <<S(Inc(pre, dd, d))>>) : pre \in BOOLEAN, dd \in {1, -1}, d \in Dst}
+       \* through a pointer (the index register is borrowed and must be given back; the postponed ++ must still see the borrowed index)
+       \cup {Prog("F1e", <<S(Inc(pre, dd, d))>>) : pre \in BOOLEAN, dd \in {1, -1}, d \in {Deref("p"), Idx("p", Num(3)), Idx("p", Var("Y")), Idx("p", Var("a")), Idx("arr", Var("a"))}}
+       \cup {Prog("F1e", <<S(Inc(FALSE, 1, Deref("p"))), S(Inc(FALSE, 1, Idx("p", Num(3)))), S(Inc(FALSE, -1, Idx("p", Var("a")))), S(Inc(TRUE, 1, Idx("p", Num(2))))>>)}
        \cup {Prog("F1e", <<S(Asg("=", x, Inc(pre, dd, d)))>>) : pre \in BOOLEAN, dd \in {1, -1}, d \in Dst \ {Var("X"), Var("s")},
                                                                    x \in {Var("b"), Var("s"), Var("X")}}
 \* F1f: relational and logical operators as values, ternary.
@@ -189,6 +192,12 @@ F5c == UNION {{Prog("F5c", <<S(Asg("=", r, v)), cl, t>>) : v \in {Var("a"), Idx(
 F5d == {Prog("F5d", <<S(Asg("=", d, Call("r2", <<>>))), S(Asg("=", v, Num(kk)))>>) : d \in {Var("c"), Var("X")}, v \in {Var("b"), Var("Y"), Var("sa")}, kk \in {1, 2, 0}}
        \cup {Prog("F5d", <<S(Asg("=", Var("c"), Call("r3", <<x>>))), S(Asg("=", v, Num(kk)))>>) : x \in {Var("a"), Var("X")}, v \in {Var("b"), Var("X")}, kk \in {7, 9}}
        \cup {Prog("F5d", <<If(Var("b"), <<Set("c", 4)>>, <<>>), S(Asg("=", Var("sb"), Call("sgn", <<x>>))), If(Var("sb"), <<Set("c", 5)>>, <<>>)>>) : x \in {Var("sa"), Var("a"), Num(200)}}
+\* F5e: what is known about the carry after a comparison must not survive a call, a subtraction, an addition:
+\* guard (comparison) ; something that changes the carry ; an addition or subtraction that needs its own CLC / SEC
+CGuard == {Bin("<", Var("a"), Num(10)), Bin(">=", Var("a"), Num(10)), Bin("<", Var("X"), Num(3)), Bin("<", Var("a"), Var("b"))}
+CMod == {S(Call("hs", <<>>)), S(Call("h", <<>>)), S(Asg("-", Var("b"), Num(1))), S(Asg("+", Var("b"), Num(200))), Set("b", 1), S(Asg("=", Var("b"), Bin("<", Var("sa"), Num(5))))}
+F5e == {Prog("F5e", <<If(g, <<m, S(Asg("=", Var("c"), Bin(op, x, y)))>>, <<S(Asg("=", Var("c"), Bin(op, x, y)))>>)>>) : g \in CGuard, m \in CMod, op \in {"+", "-"}, x \in {Var("a"), Var("X")}, y \in {Num(1), Var("b")}}
+       \cup {Prog("F5e", <<While(g, <<m, S(Asg("+", Var("a"), Num(1)))>>)>>) : g \in {Bin("<", Var("a"), Num(3))}, m \in CMod}
 \* F6: calls of functions whose bodies contain loops, early returns, switches, locals and further calls
 \* (compared variant against variant by C14; these functions have no CSem body)
 C6 == {Call("lp", <<x>>) : x \in {Var("b"), Num(3), Var("X")}} \cup {Call("er", <<x>>) : x \in {Var("a"), Num(128), Idx("arr", Var("X"))}}
@@ -248,6 +257,10 @@ F9 == {Prog("F9", <<S(Asg("=", d, l))>>) : d \in Dst9, l \in Leaf9}
       \cup {Prog("F9", <<S(Asg(op, d, l))>>) : op \in {"+", "&"}, d \in Dst9 \ Dst, l \in Leaf9}
       \cup {Prog("F9", <<S(Asg(op, d, n))>>) : op \in ShiftOps, d \in Dst9 \ Dst, n \in {Num(1), Num(3)}}
       \cup {Prog("F9", <<If(Bin(op, l, r), ThenElse[1], ThenElse[2])>>) : op \in {"==", "<"}, l \in Leaf9 \ Leaf, r \in {Var("a"), Num(1)}}
+      \* elements of an array of signed chars (sign extension into 16 bits, signed shift, negation), by X, Y and constant index
+      \cup {Prog("F9", <<S(Asg(op, d, l))>>) : op \in {"=", "+", "-"}, d \in {Var("s"), Var("ss"), Idx("sarr", Var("X"))}, l \in {Idx("sca", Var("X")), Idx("sca", Var("Y")), Idx("sca", Num(1))}}
+      \cup {Prog("F9", <<S(Asg("=", d, e))>>) : d \in {Var("sa"), Var("a"), Var("X")},
+               e \in UNION {{Bin(">>", l, Num(1)), Un("-", l), Bin("+", l, Var("sb")), l} : l \in {Idx("sca", Var("X")), Idx("sca", Var("Y")), Idx("sca", Num(3))}}}
 \* F8: "reload after modify": a register (or the accumulator path) is loaded from v, v is then modified by some
 \* statement, and the register is loaded from v again and observed.  Every register belief of the optimiser
 \* and every flags / carry belief of the generator must be dropped by the modifier, or the second load is lost.
@@ -267,7 +280,9 @@ F8 == UNION {{Prog("F8", <<S(Asg("=", r, v)), m, S(Asg("=", r, v)), S(Asg("=", V
 \* observe.  M covers stores through aliases (constant index vs register index vs pointer), register computations
 \* through the accumulator, calls, conditionals, loops ending in break, 16-bit operations.
 MPool == {S(Asg("=", Idx("arr", Num(1)), Var("Y"))), S(Asg("=", Idx("arr", Num(2)), Var("b"))), S(Asg("=", Idx("arr", Var("X")), Var("b"))), S(Asg("=", Idx("arr", Var("Y")), Var("b"))),
-          S(Asg("=", Var("a"), Var("b"))), S(Inc(FALSE, 1, Var("a"))), S(Inc(FALSE, 1, Var("X"))), S(Inc(FALSE, -1, Var("Y"))), S(Asg("=", Var("X"), Var("b"))),
+          S(Asg("=", Var("a"), Var("b"))), S(Inc(FALSE, 1, Var("a"))), S(Inc(FALSE, 1, Var("X"))),
+          S(Inc(FALSE, 1, Idx("arr", Var("X")))), S(Inc(FALSE, -1, Idx("arr", Var("Y")))), S(Inc(FALSE, 1, Idx("arr", Num(1)))), S(Inc(TRUE, 1, Idx("arr", Num(2)))),
+          S(Asg("<<", Idx("arr", Var("X")), Num(1))), S(Asg(">>", Idx("arr", Num(2)), Num(1))), S(Asg("+", Idx("arr", Var("Y")), Num(1))), S(Inc(FALSE, -1, Var("Y"))), S(Asg("=", Var("X"), Var("b"))),
           S(Asg("=", Var("Y"), Bin("+", Var("b"), Var("c")))), S(Asg("=", Var("X"), Bin("&", Var("a"), Num(3)))), S(Asg("=", Var("Y"), Idx("arr", Var("X")))),
           S(Asg("+", Var("s"), Var("a"))), S(Asg("<<", Var("s"), Num(1))), S(Asg("=", Var("b"), Call("f", <<Var("a")>>))), S(Call("h", <<>>)), S(Call("z0", <<>>)),
           If(Var("b"), <<Set("a", 1)>>, <<>>), If(Var("b"), <<Set("X", 2)>>, <<Set("X", 1)>>), If(Bin("<", Var("a"), Var("b")), <<S(Inc(FALSE, 1, Var("Y")))>>, <<>>),
@@ -301,6 +316,30 @@ FP == {Prog("FP", <<S(Asg("=", d, CTree(x, o1, Var("b"), o2, z)))>>) : d \in {Va
       \cup {Prog("FP", <<S(Asg("=", Var("c"), FBin(o, FUn(u, Var("a")), Var("b"))))>>) : u \in {"-", "~", "!"}, o \in {"+", "-", "&", "|", "==", "<"}}
       \cup {Prog("FP", <<S(Asg("=", Var("c"), FBin(o, Var("b"), FUn(u, Var("a")))))>>) : u \in {"-", "~", "!"}, o \in {"+", "-", "&", "|", "==", "<"}}
       \cup {Prog("FP", <<If(CTree(Var("a"), o1, Var("b"), o2, Var("X")), <<Set("c", 1)>>, <<Set("c", 2)>>)>>) : o1 \in POps, o2 \in POps}
+\* FT: the conditional operator with alternatives of every pair of kinds (unsigned / signed char, register, constants), alone and
+\* as operand of a shift, a comparison, an addition; also as condition and with 16-bit destination
+TAlt == {Var("a"), Var("sa"), Var("X"), Num(200), Num(1), Idx("arr", Var("Y"))}
+TCond == {Var("b"), Bin("<", Var("a"), Var("b"))}
+FT == UNION {{Prog("FT", <<S(Asg("=", d, e))>>) : d \in {Var("c"), Var("s"), Var("sb")},
+               e \in {Cond(cc, x, y), Bin(">>", Cond(cc, x, y), Num(1)), Bin("<", Cond(cc, x, y), Num(5)), Bin("+", Cond(cc, x, y), Var("b"))}} :
+             cc \in TCond, x \in TAlt, y \in TAlt \ {Num(200)}}
+      \cup {Prog("FT", <<If(Cond(cc, x, y), <<Set("c", 1)>>, <<Set("c", 2)>>)>>) : cc \in TCond, x \in TAlt, y \in TAlt}
+\* FG: goto.  Labels stand on top-level statements of main (CSem!RunBody); gotos sit at top level, inside if/else, loops,
+\* switch cases; backward (loops built from goto) and forward (skips), out of a loop, out of a switch, two labels.
+Goto(l) == [k |-> "goto", target |-> l]
+Lbl(l, st) == [label |-> l] @@ st
+GConds == {Var("a"), Bin("==", Var("a"), Var("b")), Bin("<", Var("X"), Num(3)), Un("!", Var("b"))}
+FG == {Prog("FG", <<Set("c", 0), Lbl("lab1", S(Inc(FALSE, 1, Var("c")))), S(Inc(FALSE, -1, Var("a"))), If(g, <<Goto("lab1")>>, <<>>)>>) : g \in {Var("a"), Bin("!=", Var("a"), Var("b")), Bin("<", Var("c"), Num(3))}}
+      \cup {Prog("FG", <<If(g, <<Goto("lab2")>>, <<>>), Set("b", 1), Lbl("lab2", Set("c", 2))>>) : g \in GConds}
+      \cup {Prog("FG", <<If(g, <<Goto("lab2")>>, <<Set("X", 9)>>), S(Inc(FALSE, 1, Var("b"))), Lbl("lab2", S(Asg("=", Var("c"), Var("b")))), S(Inc(FALSE, 1, Var("c")))>>) : g \in GConds}
+      \cup {Prog("FG", <<While(Var("b"), <<S(Inc(FALSE, -1, Var("b"))), If(g, <<Goto("lab2")>>, <<>>), S(Inc(FALSE, 1, Var("c")))>>), Set("X", 1), Lbl("lab2", S(Asg("=", Var("Y"), Var("c"))))>>) : g \in GConds}
+      \cup {Prog("FG", <<For(Asg("=", Var("X"), Num(0)), Bin("<", Var("X"), Num(4)), Inc(FALSE, 1, Var("X")), <<If(Bin("==", Idx("arr", Var("X")), Var("a")), <<Goto("lab2")>>, <<>>), S(Inc(FALSE, 1, Var("c")))>>),
+                          Set("b", 0), Lbl("lab2", S(Asg("=", Var("Y"), Var("X"))))>>)}
+      \cup {Prog("FG", <<Switch(e, <<Case(<<1>>, <<Goto("lab2")>>), Case(<<2>>, <<Set("b", 5), Break>>), Default(<<S(Inc(FALSE, 1, Var("b")))>>)>>), Set("c", 9), Lbl("lab2", S(Inc(FALSE, 1, Var("b"))))>>) : e \in {Var("a"), Var("X"), Bin("&", Var("a"), Num(3))}}
+      \cup {Prog("FG", <<If(Var("a"), <<If(Var("b"), <<Goto("lab2")>>, <<Set("c", 1)>>)>>, <<Set("c", 2)>>), Set("X", 3), Lbl("lab2", Set("Y", 4))>>)}
+      \cup {Prog("FG", <<Set("c", 0), Lbl("lab1", S(Inc(FALSE, 1, Var("c")))), If(Bin("<", Var("c"), Num(3)), <<Goto("lab1")>>, <<>>), If(g, <<Goto("lab3")>>, <<>>), Set("b", 7), Lbl("lab3", Set("X", 1))>>) : g \in GConds}
+      \cup {Prog("FG", <<Set("X", 2), Lbl("lab1", S(Asg("+", Var("c"), Idx("arr", Var("X"))))), S(Inc(FALSE, -1, Var("X"))), If(Bin("!=", Var("X"), Num(255)), <<Goto("lab1")>>, <<>>), S(Asg("=", Var("b"), Var("c")))>>)}
+      \cup {Prog("FG", <<Do(<<S(Inc(FALSE, -1, Var("a"))), If(Bin("==", Var("a"), Var("b")), <<Goto("lab2")>>, <<>>), S(Inc(FALSE, 1, Var("c")))>>, Var("a")), Set("c", 0), Lbl("lab2", S(Asg("=", Var("X"), Var("c"))))>>)}
 \* F8f: flags beliefs: a constant is stored, something that sets the flags differently follows, the same constant is
 \* stored again (so that its load is redundant for the accumulator but not for the flags) and tested at once
 FlagMod == {S(Inc(FALSE, 1, Var("X"))), S(Inc(FALSE, -1, Var("Y"))), S(Asg("=", Var("X"), Num(3))), S(Asg("=", Var("Y"), Var("c"))), S(Inc(FALSE, 1, Var("c"))),
@@ -309,6 +348,10 @@ F8f == {Prog("F8f", <<Set("a", kk), m, Set("b", kk), t>>) : kk \in {0, 1}, m \in
                      t \in {If(Var("b"), <<Set("sa", 1)>>, <<Set("sa", 2)>>), If(Un("!", Var("b")), <<Set("sa", 1)>>, <<Set("sa", 2)>>), If(Bin("==", Var("b"), Num(0)), <<Set("sa", 1)>>, <<>>)}}
        \cup {Prog("F8f", <<Do(<<Set("a", kk), m, Set("b", kk)>>, Var("b"))>>) : kk \in {0}, m \in FlagMod}
        \cup {Prog("F8f", <<Set("b", 2), While(Var("b"), <<Set("a", 0), m, Set("b", 0)>>)>>) : m \in FlagMod}
+       \* the same for the index registers: a redundant reload of X / Y whose flags the test needs
+       \cup UNION {{Prog("F8f", <<S(Asg("=", r, Num(kk))), m, S(Asg("=", r, Num(kk))), t>>) : kk \in {0, 1},
+                      m \in {Set("a", 1), Set("a", 0), S(Inc(FALSE, 1, Var("c"))), S(Asg("=", Var("b"), Var("c"))), S(Asg("=", Idx("arr", Num(1)), Var("c")))},
+                      t \in {If(r, <<Set("sa", 1)>>, <<Set("sa", 2)>>), If(Un("!", r), <<Set("sa", 1)>>, <<Set("sa", 2)>>), If(Bin("==", r, Num(0)), <<Set("sa", 1)>>, <<>>)}} : r \in {Var("X"), Var("Y")}}
 \* FX: explicit hardware-access statements mixed with ordinary code (C18).  PORT1..PORT3 are io cells declared by the driver.
 Load(e) == [k |-> "load", e |-> e]
 Store(e) == [k |-> "store", e |-> e]
@@ -370,7 +413,7 @@ RW == {Pair2("commute", <<S(Asg("=", d, Bin(op, l, r)))>>, <<S(Asg("=", d, Bin(o
       \cup {Pair2("callbody", <<S(Asg("=", d, Call("g", <<x, y>>)))>>, <<S(Asg("=", d, Bin("-", x, y)))>>) : d \in {Var("a"), Var("Y")}, x \in Arg, y \in {Var("b"), Num(1)}}
       \cup {Pair2("callbody", <<S(Call("h", <<>>)), S(Asg("=", Var("b"), Var("a")))>>, <<S(Inc(FALSE, 1, Var("a"))), S(Asg("=", Var("b"), Var("a")))>>)}
       \cup {Pair2("callbody", <<S(Call("w", <<x>>))>>, <<S(Asg("=", Var("c"), x))>>) : x \in Arg}
-AllFams == FP \cup FW \cup F3d \cup F4b \cup F5d \cup F8f \cup F8h \cup F8g \cup FL \cup F5c \cup F6 \cup F8 \cup F9 \cup F1a \cup F1b \cup F1c \cup F1d \cup F1e \cup F1f \cup F1g \cup F2a \cup F2b \cup F2c \cup F2z \cup F2s
+AllFams == F5e \cup FT \cup FG \cup FP \cup FW \cup F3d \cup F4b \cup F5d \cup F8f \cup F8h \cup F8g \cup FL \cup F5c \cup F6 \cup F8 \cup F9 \cup F1a \cup F1b \cup F1c \cup F1d \cup F1e \cup F1f \cup F1g \cup F2a \cup F2b \cup F2c \cup F2z \cup F2s
            \cup F3a \cup F3b \cup F3c \cup F4 \cup F5a \cup F5b \cup F7a \cup F7b \cup F7c
 Family ==
   CASE Fam = "ALL" -> AllFams [] Fam = "RW" -> RW [] Fam = "FX" -> FX \cup FS
@@ -379,7 +422,7 @@ Family ==
     [] Fam = "F2a" -> F2a [] Fam = "F2b" -> F2b [] Fam = "F2c" -> F2c [] Fam = "F2z" -> F2z [] Fam = "F2s" -> F2s
     [] Fam = "F3a" -> F3a [] Fam = "F3b" -> F3b [] Fam = "F3c" -> F3c
     [] Fam = "F4" -> F4 [] Fam = "F5a" -> F5a [] Fam = "F5b" -> F5b
-    [] Fam = "F7a" -> F7a [] Fam = "F7b" -> F7b [] Fam = "F7c" -> F7c [] Fam = "FW" -> FW [] Fam = "FL" -> FL [] Fam = "F5c" -> F5c [] Fam = "F6" -> F6 [] Fam = "F8" -> F8 [] Fam = "F8g" -> F8g [] Fam = "FP" -> FP [] Fam = "F8f" -> F8f [] Fam = "F3d" -> F3d [] Fam = "F4b" -> F4b [] Fam = "F5d" -> F5d [] Fam = "F9" -> F9
+    [] Fam = "F7a" -> F7a [] Fam = "F7b" -> F7b [] Fam = "F7c" -> F7c [] Fam = "FW" -> FW [] Fam = "FL" -> FL [] Fam = "F5c" -> F5c [] Fam = "F6" -> F6 [] Fam = "F8" -> F8 [] Fam = "F8g" -> F8g [] Fam = "FP" -> FP [] Fam = "FG" -> FG [] Fam = "FT" -> FT [] Fam = "F5e" -> F5e [] Fam = "F8f" -> F8f [] Fam = "F3d" -> F3d [] Fam = "F4b" -> F4b [] Fam = "F5d" -> F5d [] Fam = "F9" -> F9
 
 VARIABLE prog
 Init == prog \in Family
